@@ -50,8 +50,11 @@ class put(ContractBase):
         return {'exactly-one-message-for-the-unit': Or(And(appended(q0, q1), d1 == d0), And(appended(d0, d1), q1 == q0))}
 
     def requires(c):
+        t = c['target']
         return {'len': And(LM.len(c.old.g(CLUSTER)) >= 0, LM.len(c.old.g(CLOUD)) >= 0),
-                'agency-slot': ListOf(Opt(Ref('Agency'))).len(c.old.g('dawgie.pl.farm._agency')) == 1}     # module constant [None]; plow() assigns slot 0
+                'agency-slot': ListOf(Opt(Ref('Agency'))).len(c.old.g('dawgie.pl.farm._agency')) == 1,     # module constant [None]; plow() assigns slot 0
+                # a message is made only for a unit that was released (is in the job's `do`), never for one merely executing
+                'unit-was-released': Or(OA.is_none(t), do_(c.old, c['job'])[OA.val(t)])}
 
 
 def _unit(ex, e):
@@ -215,5 +218,5 @@ class dispatch(ContractBase):
 
     loops = {'for j in _jobs.copy()': Loop(inv=_inv_jobs, modifies=[JOBS, CLUSTER, CLOUD, 'Node.do', 'Node.status']),
              'for alg in ': Loop(inv=lambda c: {}, modifies=[]),
-             'for t in sorted(list(j.get': Loop(inv=_inv_put, modifies=[CLUSTER, CLOUD]),
+             "for t in sorted(list(j.get('do')))": Loop(inv=_inv_put, modifies=[CLUSTER, CLOUD]),
              'for dummy in range(': Loop(inv=_inv_assign, modifies=[WK, CLUSTER, BUSY, 'dawgie.pl.farm._time', 'Hand.ghost_sent', TASKS])}
